@@ -219,7 +219,7 @@ def level_b(rep, tier, seed):
     t0 = time.time()
     n = GRID_CASES[tier]
     args = [(seed, i, GRID_SCHEDULES[tier], tier == "quick") for i in range(n)]
-    res = batch.map_chunks(_grid_job, args, limit_s=2400)
+    res = batch.map_chunks(_grid_job, args, limit_s=6000)
     runs = [r for job in res for r in job]
     cnt = collections.Counter()
     probes = collections.Counter()
